@@ -257,7 +257,7 @@ pub fn run(ctx: &mut Ctx) -> (&'static str, String, bool) {
             let mut p = Part::new();
             let mut r = base_rng.fork(i + 7001 * shard);
             if i % 2 == 0 {
-                let x = gen_pth(&mut r, if miri { 4 } else if i % 10 == 0 { 300 } else { 12 });
+                let x = gen_pth(&mut r, if miri { 4 } else if i % 100 == 50 { 6000 } else if i % 10 == 0 { 300 } else { 12 });
                 let canonical = ref_pth_bytes(&x);
                 let w = guarded(|| {
                     let mut c = Cursor::new(Vec::new());
